@@ -105,8 +105,10 @@ static void vegas_highdim(std::size_t d, std::size_t bins)
 // ---- multi channel: channels are piecewise linear maps given by two-bin grids [0, k/4, 1]
 template <typename T>
 static T mc_lattice(std::vector<int> const& ks, std::vector<T> const& weights, T minw, int f, T jac, std::size_t Mu, std::size_t Ms, std::vector<T>* used = nullptr,
-    T beta = T(0.25))
+    T beta = T(0.25), int extra = 0)
 {
+    // extra = 1: two random numbers per point and one coordinate - the second number enters the integrand as the factor 2 r (mean 1 on its
+    // own lattice of four points); extra = 2: one random number and two coordinates y, 1 - y - the integrand is multiplied by their sum
     std::size_t n = ks.size();
     auto bin_of = [](int k, T y) { return y < T(k) / T(4) ? 0 : 1; };
     auto width = [](int k, int b) { return b == 0 ? T(k) / T(4) : T(1) - T(k) / T(4); };
@@ -117,6 +119,7 @@ static T mc_lattice(std::vector<int> const& ks, std::vector<T> const& weights, T
         std::vector<int> ks;
         T jac;
         std::vector<T> kept;
+        int extra;
         static T width(int k, int b) { return b == 0 ? T(k) / T(4) : T(1) - T(k) / T(4); }
         T operator()(std::size_t ch, std::vector<T> const& r, std::vector<T>& co, std::vector<std::size_t> const&, std::vector<T>& de, hep::multi_channel_map action)
         {
@@ -135,22 +138,27 @@ static T mc_lattice(std::vector<int> const& ks, std::vector<T> const& weights, T
             co[0] = left + frac * width(k, b);
             kept.assign(ks.size(), T());
             for (std::size_t j = 0; j != ks.size(); ++j) kept[j] = jac / (T(2) * width(ks[j], co[0] < T(ks[j]) / T(4) ? 0 : 1)); // common jacobian factor in all densities
-            return jac;
+            if (extra == 2) co[1] = T(1) - co[0];
+            return T(-3); // "The return value is ignored for this function call": the jacobian is what the call for the densities returns
         }
     };
-    caching_map map{ks, jac, std::vector<T>()};
+    caching_map map{ks, jac, std::vector<T>(), extra};
     auto fn = [&](hep::multi_channel_point<T> const& p) {
         T y = p.coordinates()[0];
-        return f == f_one ? T(1) : (f == f_x0 ? y : (y < T(0.25) ? T(1) : T()));
+        T v = f == f_one ? T(1) : (f == f_x0 ? y : (y < T(0.25) ? T(1) : T()));
+        if (extra == 1) v *= T(2) * p.point()[1];
+        if (extra == 2) v *= p.coordinates()[0] + p.coordinates()[1];
+        return v;
     };
     // (no weights given: the default, uniform weights of a checkpoint that is only told the number of channels)
-    auto chk = weights.empty() ? hep::make_multi_channel_chkpt<T, script_engine>(minw, beta, lattice(std::vector<std::size_t>{Mu, Ms}, true))
-                               : hep::make_multi_channel_chkpt<T, script_engine>(weights, minw, beta, lattice(std::vector<std::size_t>{Mu, Ms}, true));
+    std::vector<std::size_t> const lat = extra == 1 ? std::vector<std::size_t>{Mu, 4, Ms} : std::vector<std::size_t>{Mu, Ms};
+    auto chk = weights.empty() ? hep::make_multi_channel_chkpt<T, script_engine>(minw, beta, lattice(lat, true))
+                               : hep::make_multi_channel_chkpt<T, script_engine>(weights, minw, beta, lattice(lat, true));
     using C = decltype(chk);
     chk.channels(n);
     if (used) *used = chk.channel_weights();
-    auto r = hep::multi_channel(hep::make_multi_channel_integrand<T>(fn, 1, map, 1, n), std::vector<std::size_t>{Mu * Ms}, chk,
-        hep::callback<C>(hep::callback_mode::silent));
+    auto r = hep::multi_channel(hep::make_multi_channel_integrand<T>(fn, extra == 1 ? 2 : 1, map, extra == 2 ? 2 : 1, n),
+        std::vector<std::size_t>{Mu * Ms * (extra == 1 ? 4 : 1)}, chk, hep::callback<C>(hep::callback_mode::silent));
     return r.results()[0].value();
 }
 
@@ -195,7 +203,8 @@ static void mc_cases(rng& g, bool thorough)
         {
             int ff = f == 2 ? f_ind : f;
             std::vector<T> used;
-            T v = mc_lattice<T>(ks, w, T(fm.minw), ff, T(1), fm.M, fm.M, &used);
+            // (every third case: the number of random numbers differs from the number of coordinates, one way or the other)
+            T v = mc_lattice<T>(ks, w, T(fm.minw), ff, k % 2 ? T(1) : T(2), fm.M, fm.M, &used, T(0.25), k % 3 == 2 ? 0 : 1 + k % 3);
             ev("McLat").s("T", type_name<T>::get()).a("ks", ks).a("w", std::vector<int>{0, 0, 0}).i("f", ff).i("Mu", (long long) fm.M).i("Ms", (long long) fm.M)
                 .i("exactWeights", 0).i("recompute", 0).i("value", std::isfinite(v) ? mono_scaled(v, 20) : -999999999).emit();
         }
